@@ -23,7 +23,7 @@ ASSUMPTIONS = ["active control points are determined by the reference span (nvmo
 FLOORS = {'quick': {'hull': 2500, 'bbox-contains': 2500, 'bbox-equals-net': 200, 'clamped-ends': 300, 'length': 40,
                     'find_ctrlpts': 800, 'hull-via-meval': 1500},
           'thorough': {'hull': 25000, 'hull-via-meval': 15000}}
-MANDATORY_TAGS = ['copy-read-first', 'coarse-precision-sampling', 'container-bbox', 'pdim1', 'pdim2', 'pdim3', 'rational', 'dim2', 'dim3', 'unclamped', 'clamped', 'edit-then-read', 'length:after-partial-evaluate']
+MANDATORY_TAGS = ['evaluator-asked-directly:unclamped', 'copy-read-first', 'coarse-precision-sampling', 'container-bbox', 'pdim1', 'pdim2', 'pdim3', 'rational', 'dim2', 'dim3', 'unclamped', 'clamped', 'edit-then-read', 'length:after-partial-evaluate']
 TECHNIQUE = ("runtime monitoring: separating-hyperplane oracle on every evaluated point (targeted queries and all points "
              "intercepted at evaluators.*.evaluate) against the active control points of its knot span; min/max oracle for bbox; "
              "chord/polygon bounds for length_curve")
@@ -267,6 +267,16 @@ def check(case, ctx):
     for x in pts[:: max(1, len(pts) // 25)]:
         ctx.check(all(bb[0][i] - 1e-9 * sc <= x[i] <= bb[1][i] + 1e-9 * sc for i in range(dim)), 'bbox/point-outside',
                   'sampled point %r lies outside the bounding box %r' % (list(x), bb), what='bbox-contains')
+    # ---- (round 10) the evaluator asked directly, without a range: its default range is the domain, so the same containment holds -----------
+    if rng.random() < 0.5 or not clamped:
+        ctx.tag('evaluator-asked-directly', 'evaluator-asked-directly:' + ('clamped' if clamped else 'unclamped'))
+        pts_d = o.evaluator.evaluate(o.data)
+        ctx.check(len(pts_d) == len(pts), 'evaluator-direct/grid-size', 'evaluator.evaluate(data) without a range returns %d points, evalpts has %d'
+                  % (len(pts_d), len(pts)), what='bbox-contains')
+        for x in pts_d[:: max(1, len(pts_d) // 25)] + [pts_d[-1]]:
+            ctx.check(all(bb[0][i] - 1e-9 * sc <= x[i] <= bb[1][i] + 1e-9 * sc for i in range(dim)), 'bbox/point-outside',
+                      'point %r handed out by evaluator.evaluate(data) (no range given: the domain) lies outside the bounding box %r' % (list(x), bb),
+                      what='bbox-contains')
     # ---- clamped shapes start and end on their first and last control points ------------------------------------------------------------
     if clamped:
         first = S.cart(tuple(0 for _ in S.n))
